@@ -379,3 +379,20 @@ func ClassifierCond(f *Func, sw *ast.SwitchStmt, caseExpr ast.Expr) ast.Expr {
 	}
 	return nil
 }
+
+// PredLadder returns the boolean expression computed by the ladder body of the bool helper h (in h's own terms) and the
+// let-bindings preceding the ladder; ok=false when h's body is not a pure ladder.
+func PredLadder(h *Func) (expr ast.Expr, lets map[types.Object]ast.Expr, ok bool) {
+	if h == nil || h.Type.Results == nil || len(h.Type.Results.List) != 1 || len(h.Type.Results.List[0].Names) > 1 {
+		return nil, nil, false
+	}
+	info := h.Pkg.TypesInfo
+	if t := info.TypeOf(h.Type.Results.List[0].Type); t == nil || !types.Identical(t.Underlying(), types.Typ[types.Bool]) {
+		return nil, nil, false
+	}
+	rungs, lets, ok := ladderOf(h)
+	if !ok {
+		return nil, nil, false
+	}
+	return ladderBool(info, rungs), lets, true
+}
